@@ -1,6 +1,6 @@
 (* LexSteps.v — one scanner step on each token spelling the printer produces
    (leaf lemmas for proofs/PrintLexProofs.v). *)
-From JP Require Import Base Json PyStr PyJsonStr Syntax Gen_unicode Lex Parse Printable NormPath PyStrLemmas
+From JP Require Import Base Json PyStr PyJsonStr Syntax Gen_unicode Lex Parse Printable TokensOk NormPath PyStrLemmas
                        LocationProofs LexProofs.
 
 (* ---------------------------------------------------------------------- *)
@@ -863,11 +863,311 @@ Proof.
 Qed.
 
 (* ---------------------------------------------------------------------- *)
+(* the environment's identifier tokens, for every admissible assignment of spellings *)
+
+Lemma sign_cases c :
+  sign_char c = true ->
+  c = 36%N \/ c = 94%N \/ c = 64%N \/ c = 35%N \/ c = 126%N \/ c = 37%N \/ c = 59%N \/ c = 96%N \/
+  c = 123%N \/ c = 125%N \/ c = 95%N \/ c = 124%N \/ c = 38%N.
+Proof.
+  unfold sign_char. cbn [existsb]. intros H.
+  repeat (apply orb_true_iff in H as [H|H]; [apply N.eqb_eq in H; subst c; tauto|]).
+  discriminate H.
+Qed.
+
+Ltac sign_split H :=
+  apply sign_cases in H;
+  repeat (destruct H as [H|H]; [subst|]); [..|subst].
+
+Lemma sign_facts c :
+  sign_char c = true ->
+  c <> 34%N /\ c <> 39%N /\ c <> 47%N /\ c <> 45%N /\ c <> 58%N /\ c <> 46%N /\ c <> 61%N /\
+  c <> 97%N /\ c <> 111%N /\
+  is_udigit c = false /\ is_lower c = false /\ py_isspace c = false.
+Proof.
+  intros H. sign_split H; (repeat split; try discriminate; reflexivity).
+Qed.
+
+Definition nonsign_head (rest : ustr) : Prop :=
+  match rest with [] => True | c :: _ => sign_char c = false end.
+
+Definition env_base (E : env) : list (tkind * ustr) :=
+  [(TRoot, e_root E); (TFakeRoot, e_fake_root E); (TSelf, e_self E); (TKey, e_key E);
+   (TUnion, e_union E); (TIntersect, e_intersection E); (TFilterCtx, e_filter_context E);
+   (TKeys, e_keys E)].
+
+Lemma spellings_base E : spellings E = map snd (env_base E).
+Proof. reflexivity. Qed.
+
+Lemma pd_NoDup l : pairwise_distinct l = true -> NoDup l.
+Proof.
+  induction l as [|x l IH]; intros H; [constructor|].
+  cbn [pairwise_distinct] in H. apply andb_true_iff in H as [H1 H2]. apply negb_true_iff in H1.
+  constructor; [|apply IH; exact H2].
+  intros Hin. assert (Hex : existsb (ustr_eqb x) l = true).
+  { apply existsb_exists. exists x. split; [exact Hin|apply ustr_eqb_refl]. }
+  congruence.
+Qed.
+
+Lemma tokens_ok_base E :
+  tokens_ok E = true ->
+  (forall k t, In (k, t) (env_base E) -> spelling_ok t = true) /\ NoDup (map snd (env_base E)).
+Proof.
+  unfold tokens_ok. rewrite spellings_base. intros H. apply andb_true_iff in H as [H1 H2]. split.
+  - intros k t Hin. rewrite forallb_forall in H1. apply H1. apply in_map_iff. exists (k, t). auto.
+  - apply pd_NoDup. exact H2.
+Qed.
+
+Lemma nodup_snd_unique {A} (B : list (A * ustr)) k1 k2 t :
+  NoDup (map snd B) -> In (k1, t) B -> In (k2, t) B -> k1 = k2.
+Proof.
+  induction B as [|[k0 t0] B IH]; intros Hnd H1 H2; [contradiction|].
+  cbn [map snd] in Hnd. inversion Hnd as [|? ? Hnot Hnd']; subst.
+  destruct H1 as [H1|H1]; destruct H2 as [H2|H2].
+  - congruence.
+  - injection H1 as -> ->. exfalso. apply Hnot. apply in_map_iff. exists (k2, t). auto.
+  - injection H2 as -> ->. exfalso. apply Hnot. apply in_map_iff. exists (k1, t). auto.
+  - apply IH; assumption.
+Qed.
+
+(* insertion sort: elements and order *)
+Lemma ins_tok_in kt l x : In x (ins_tok kt l) <-> x = kt \/ In x l.
+Proof.
+  induction l as [|y l IH]; [cbn; intuition congruence|].
+  rewrite ins_tok_cons. destruct (Nat.ltb (length (snd kt)) (length (snd y))).
+  - cbn [In]. rewrite IH. tauto.
+  - cbn [In]. intuition congruence.
+Qed.
+
+Fixpoint sdesc (l : list (tkind * ustr)) : Prop :=
+  match l with
+  | [] => True
+  | x :: r => Forall (fun y => (length (snd y) <= length (snd x))%nat) r /\ sdesc r
+  end.
+
+Lemma ins_tok_sdesc kt l : sdesc l -> sdesc (ins_tok kt l).
+Proof.
+  induction l as [|y l IH]; intros H; [cbn; auto|].
+  cbn [sdesc] in H. destruct H as [Hy Hl].
+  rewrite ins_tok_cons. destruct (Nat.ltb (length (snd kt)) (length (snd y))) eqn:El.
+  - apply Nat.ltb_lt in El. cbn [sdesc]. split; [|apply IH; exact Hl].
+    apply Forall_forall. intros x Hx. apply ins_tok_in in Hx as [->|Hx]; [cbv beta; apply Nat.lt_le_incl; exact El|].
+    rewrite Forall_forall in Hy. apply Hy. exact Hx.
+  - apply Nat.ltb_ge in El. cbn [sdesc]. split; [|split; assumption].
+    constructor; [exact El|]. apply Forall_forall. intros x Hx.
+    rewrite Forall_forall in Hy. specialize (Hy x Hx). cbv beta in *. eapply Nat.le_trans; [exact Hy|exact El].
+Qed.
+
+Lemma sort_in B x : In x (fold_right ins_tok [] B) <-> In x B.
+Proof.
+  induction B as [|kt B IH]; [tauto|]. cbn [fold_right In]. rewrite ins_tok_in, IH. intuition congruence.
+Qed.
+
+Lemma sort_sdesc B : sdesc (fold_right ins_tok [] B).
+Proof. induction B as [|kt B IH]; [exact I|]. cbn [fold_right]. apply ins_tok_sdesc. exact IH. Qed.
+
+Lemma spelling_nonempty t : spelling_ok t = true -> t <> [].
+Proof. intros H ->. discriminate H. Qed.
+
+Lemma env_tokens_in E x : tokens_ok E = true -> (In x (env_tokens E) <-> In x (env_base E)).
+Proof.
+  intros HT. destruct (tokens_ok_base E HT) as [Hsp _].
+  rewrite env_tokens_eq. rewrite sort_in. fold (env_base E). rewrite filter_In.
+  split; [tauto|]. intros Hin. split; [exact Hin|]. destruct x as [k t]. cbn [snd].
+  specialize (Hsp k t Hin). destruct t; [discriminate Hsp|reflexivity].
+Qed.
+
+Lemma env_tokens_sdesc E : sdesc (env_tokens E).
+Proof. rewrite env_tokens_eq. apply sort_sdesc. Qed.
+
+(* match_lit *)
+Lemma starts_with_split p s : starts_with p s = true -> s = p ++ skipn (length p) s.
+Proof.
+  revert s. induction p as [|x p IH]; intros s H; [reflexivity|].
+  destruct s as [|y s]; [discriminate H|]. cbn [starts_with] in H.
+  apply andb_true_iff in H as [H1 H2]. apply N.eqb_eq in H1. subst y.
+  cbn [length skipn app]. f_equal. apply IH. exact H2.
+Qed.
+
+Lemma starts_with_app p r : starts_with p (p ++ r) = true.
+Proof. induction p as [|x p IH]; [reflexivity|]. cbn [app starts_with]. rewrite N.eqb_refl. exact IH. Qed.
+
+Lemma skipn_app_exact {A} (p r : list A) : skipn (length p) (p ++ r) = r.
+Proof. induction p as [|x p IH]; [reflexivity|]. exact IH. Qed.
+
+Lemma match_lit_app p r : match_lit p (p ++ r) = Some r.
+Proof. unfold match_lit. rewrite starts_with_app, skipn_app_exact. reflexivity. Qed.
+
+Lemma match_lit_some p s r : match_lit p s = Some r -> s = p ++ r.
+Proof.
+  unfold match_lit. destruct (starts_with p s) eqn:E; [|discriminate].
+  intros H. injection H as <-. apply starts_with_split. exact E.
+Qed.
+
+Lemma app_eq_prefix {A} (t t0 rest r : list A) :
+  t ++ rest = t0 ++ r -> (length t <= length t0)%nat -> exists m, t0 = t ++ m /\ rest = m ++ r.
+Proof.
+  revert t0. induction t as [|x t IH]; intros t0 H Hl.
+  - exists t0. split; [reflexivity|exact H].
+  - destruct t0 as [|y t0]; [cbn in Hl; lia|]. cbn [app] in H. injection H as -> H.
+    destruct (IH t0 H) as [m [-> ->]]; [cbn in Hl; lia|]. exists m. split; reflexivity.
+Qed.
+
+Lemma spelling_signs t : spelling_ok t = true -> forallb sign_char t = true.
+Proof.
+  unfold spelling_ok. destruct t; [discriminate|]. intros H.
+  apply andb_true_iff in H as [H _]. apply andb_true_iff in H as [H _]. exact H.
+Qed.
+
+Lemma match_env_sorted L : forall k t rest,
+  sdesc L ->
+  (forall k' t', In (k', t') L -> spelling_ok t' = true) ->
+  (forall k1 k2 t', In (k1, t') L -> In (k2, t') L -> k1 = k2) ->
+  In (k, t) L -> nonsign_head rest ->
+  match_env L (t ++ rest) = Some (k, t, rest).
+Proof.
+  induction L as [|[k0 t0] L IH]; intros k t rest Hs Hsp Hun Hin Hr; [contradiction|].
+  cbn [match_env]. cbn [sdesc] in Hs. destruct Hs as [Hhd Hs].
+  destruct (match_lit t0 (t ++ rest)) as [r|] eqn:Em.
+  - apply match_lit_some in Em.
+    assert (Hlen : (length t <= length t0)%nat).
+    { destruct Hin as [Hin|Hin]; [injection Hin as _ ->; lia|].
+      rewrite Forall_forall in Hhd. apply (Hhd (k, t) Hin). }
+    destruct (app_eq_prefix t t0 rest r Em Hlen) as [m [Et0 Erest]].
+    destruct m as [|c m].
+    + rewrite app_nil_r in Et0. subst t0. cbn [app] in Erest. subst r.
+      rewrite (Hun k0 k t (or_introl eq_refl) Hin). reflexivity.
+    + exfalso. subst rest. cbn [nonsign_head app] in Hr.
+      pose proof (spelling_signs t0 (Hsp k0 t0 (or_introl eq_refl))) as Hsg.
+      rewrite Et0 in Hsg. rewrite forallb_app in Hsg. apply andb_true_iff in Hsg as [_ Hsg].
+      cbn [forallb] in Hsg. apply andb_true_iff in Hsg as [Hc _]. congruence.
+  - destruct Hin as [Hin|Hin].
+    + injection Hin as -> ->. rewrite match_lit_app in Em. discriminate Em.
+    + apply IH; try assumption.
+      * intros k' t' H'. apply (Hsp k' t'). right. exact H'.
+      * intros k1 k2 t' H1 H2. apply (Hun k1 k2 t'); right; assumption.
+Qed.
+
+Lemma match_env_ident E k t rest :
+  tokens_ok E = true -> In (k, t) (env_base E) -> nonsign_head rest ->
+  match_env (env_tokens E) (t ++ rest) = Some (k, t, rest).
+Proof.
+  intros HT Hin Hr. destruct (tokens_ok_base E HT) as [Hsp Hnd].
+  apply match_env_sorted.
+  - apply env_tokens_sdesc.
+  - intros k' t' H'. apply (Hsp k' t'). apply (env_tokens_in E _ HT). exact H'.
+  - intros k1 k2 t' H1 H2. apply (nodup_snd_unique (env_base E) k1 k2 t' Hnd);
+      apply (env_tokens_in E _ HT); assumption.
+  - apply (env_tokens_in E _ HT). exact Hin.
+  - exact Hr.
+Qed.
+
+Lemma match_lit_head_ne t c s :
+  match t with x :: _ => x <> c | [] => False end -> match_lit t (c :: s) = None.
+Proof.
+  destruct t as [|x t]; [contradiction|]. intros H. unfold match_lit. cbn [starts_with].
+  replace (N.eqb x c) with false by (symmetry; apply N.eqb_neq; exact H). reflexivity.
+Qed.
+
+Lemma match_env_nonsign L c s :
+  (forall k' t', In (k', t') L -> spelling_ok t' = true) -> sign_char c = false ->
+  match_env L (c :: s) = None.
+Proof.
+  induction L as [|[k0 t0] L IH]; intros Hsp Hc; [reflexivity|].
+  cbn [match_env]. rewrite match_lit_head_ne.
+  - apply IH; [|exact Hc]. intros k' t' H'. apply (Hsp k' t'). right. exact H'.
+  - pose proof (Hsp k0 t0 (or_introl eq_refl)) as H0. pose proof (spelling_signs t0 H0) as Hsg.
+    destruct t0 as [|x t0]; [discriminate H0|]. cbn [forallb] in Hsg.
+    apply andb_true_iff in Hsg as [Hx _]. intros ->. congruence.
+Qed.
+
+Lemma alt_env_nonsign E :
+  tokens_ok E = true -> forall c s, sign_char c = false -> alt_env E (c :: s) = None.
+Proof.
+  intros HT c s Hc. unfold alt_env. rewrite match_env_nonsign; [reflexivity| |exact Hc].
+  destruct (tokens_ok_base E HT) as [Hsp _].
+  intros k' t' H'. apply (Hsp k' t'). apply (env_tokens_in E _ HT). exact H'.
+Qed.
+
+(* an identifier token *)
+Lemma alt_int_none s : match_int s = None -> alt_int s = None.
+Proof. intros H. unfold alt_int. rewrite H. reflexivity. Qed.
+
+Lemma match_float_other c t : c <> 45%N -> is_udigit c = false -> match_float (c :: t) = None.
+Proof. intros H1 H2. rewrite match_float_not45 by exact H1. cbn [span]. rewrite H2. reflexivity. Qed.
+
+Lemma match_int_other c t : c <> 45%N -> is_udigit c = false -> match_int (c :: t) = None.
+Proof. intros H1 H2. rewrite match_int_not45 by exact H1. cbn [span]. rewrite H2. reflexivity. Qed.
+
+Lemma alt_simple_none s k lit : match_lit lit s = None -> alt_simple s k lit = None.
+Proof. intros H. unfold alt_simple. rewrite H. reflexivity. Qed.
+
+Lemma alt_word_none c s k lit :
+  match lit with x :: _ => x <> c | [] => False end -> alt_word (c :: s) k lit = None.
+Proof.
+  destruct lit as [|x lit]; [contradiction|]. intros H. unfold alt_word, match_word. cbn [starts_with].
+  replace (N.eqb x c) with false by (symmetry; apply N.eqb_neq; exact H). reflexivity.
+Qed.
+
+Lemma double_none d t rest :
+  (d = 38%N \/ d = 124%N) -> spelling_ok t = true -> nonsign_head rest ->
+  match_lit [d; d] (t ++ rest) = None.
+Proof.
+  intros Hd Ht Hr. unfold match_lit.
+  assert (Hs : starts_with [d; d] t = false).
+  { unfold spelling_ok in Ht. destruct t; [discriminate|].
+    apply andb_true_iff in Ht as [Ht H2]. apply andb_true_iff in Ht as [_ H1].
+    apply negb_true_iff in H1. apply negb_true_iff in H2. destruct Hd as [-> | ->]; assumption. }
+  assert (Hds : sign_char d = true) by (destruct Hd as [-> | ->]; reflexivity).
+  replace (starts_with [d; d] (t ++ rest)) with false; [reflexivity|]. symmetry.
+  destruct t as [|x [|y t]]; [discriminate Ht| |].
+  - cbn [app starts_with]. destruct (N.eqb d x) eqn:E1; [|reflexivity]. cbn [andb].
+    destruct rest as [|c r]; [reflexivity|]. cbn [nonsign_head] in Hr.
+    destruct (N.eqb d c) eqn:E2; [|reflexivity]. apply N.eqb_eq in E2. subst c. congruence.
+  - cbn [app starts_with] in *. destruct (N.eqb d x); [|reflexivity].
+    destruct (N.eqb d y); [discriminate Hs|reflexivity].
+Qed.
+
+Lemma step_ident E k t rest :
+  tokens_ok E = true -> In (k, t) (env_base E) -> nonsign_head rest ->
+  step1 E (t ++ rest) = LTok [mkTok k t] rest.
+Proof.
+  intros HT Hin Hr. destruct (tokens_ok_base E HT) as [Hsp _]. pose proof (Hsp k t Hin) as Ht.
+  pose proof (match_env_ident E k t rest HT Hin Hr) as Henv.
+  pose proof (double_none 38%N t rest (or_introl eq_refl) Ht Hr) as Hand.
+  pose proof (double_none 124%N t rest (or_intror eq_refl) Ht Hr) as Hor.
+  pose proof (spelling_signs t Ht) as Hsg.
+  destruct t as [|c t']; [discriminate Ht|]. cbn [forallb] in Hsg. apply andb_true_iff in Hsg as [Hc _].
+  destruct (sign_facts c Hc) as [N34 [N39 [N47 [N45 [N58 [N46 [N61 [N97 [N111 [Hud [Hlow Hsp']]]]]]]]]]].
+  cbn [app] in *. rewrite step1_cons. unfold alt_list. cbv zeta.
+  rewrite (alt_dq_none c _ N34), first_some_none.
+  rewrite (alt_sq_none c _ N39), first_some_none.
+  rewrite (alt_re_none c _ N47), first_some_none.
+  rewrite (alt_slice_none _ (match_slice_other c _ N45 Hud Hsp' N58)), first_some_none.
+  rewrite (alt_fn_none c _ Hlow), first_some_none.
+  rewrite (alt_dotprop_none c _ N46), first_some_none.
+  rewrite (alt_float_none _ (match_float_other c _ N45 Hud)), first_some_none.
+  rewrite (alt_int_none _ (match_int_other c _ N45 Hud)), first_some_none.
+  rewrite (alt_simple_none _ TDDot _ (match_lit_head_ne [46; 46]%N c _ ltac:(cbn; congruence))), first_some_none.
+  rewrite (alt_simple_none _ TAnd _ Hand), first_some_none.
+  rewrite (alt_word_none c _ TAnd s_and ltac:(cbn; congruence)), first_some_none.
+  rewrite (alt_simple_none _ TOr _ Hor), first_some_none.
+  rewrite (alt_word_none c _ TOr s_or ltac:(cbn; congruence)), first_some_none.
+  unfold alt_env. rewrite Henv. rewrite first_some_some. reflexivity.
+Qed.
+
+Lemma default_tokens_ok E : default_tokens E -> tokens_ok E = true.
+Proof.
+  intros [H1 [H2 [H3 [H4 [H5 [H6 [H7 H8]]]]]]]. unfold tokens_ok, spellings.
+  rewrite H1, H2, H3, H4, H5, H6, H7, H8. reflexivity.
+Qed.
+
+(* ---------------------------------------------------------------------- *)
 (* steps decided by computation on a concrete prefix *)
 
-Ltac step_compute HE :=
-  rewrite step1_cons; unfold alt_list, alt_env; cbv zeta;
-  rewrite (env_tokens_default _ HE); lazy; reflexivity.
+Ltac step_compute HT :=
+  rewrite step1_cons; unfold alt_list; cbv zeta;
+  try (rewrite (alt_env_nonsign _ HT) by reflexivity); lazy; reflexivity.
 
 Lemma tok_pre E pre ts rest :
   pre <> [] -> step1 E (pre ++ rest) = LTok ts rest -> tokenize E (pre ++ rest) = ts ++ tokenize E rest.
@@ -885,7 +1185,7 @@ Ltac leaf HE pre :=
 
 Section Leaves.
   Variable E : env.
-  Hypothesis HE : default_tokens E.
+  Hypothesis HE : tokens_ok E = true.
 
   Lemma tok_lbracket rest : tokenize E (91%N :: rest) = mkTok TLBracket [91%N] :: tokenize E rest.
   Proof. leaf HE [91%N]. Qed.
@@ -901,33 +1201,23 @@ Section Leaves.
   Proof. leaf HE [63%N]. Qed.
   Lemma tok_wild rest : tokenize E (42%N :: rest) = mkTok TWild [42%N] :: tokenize E rest.
   Proof. leaf HE [42%N]. Qed.
-  Lemma tok_root rest : tokenize E (36%N :: rest) = mkTok TRoot [36%N] :: tokenize E rest.
-  Proof. leaf HE [36%N]. Qed.
-  Lemma tok_fake_root rest : tokenize E (94%N :: rest) = mkTok TFakeRoot [94%N] :: tokenize E rest.
-  Proof. leaf HE [94%N]. Qed.
-  Lemma tok_self rest : tokenize E (64%N :: rest) = mkTok TSelf [64%N] :: tokenize E rest.
-  Proof. leaf HE [64%N]. Qed.
-  Lemma tok_key rest : tokenize E (35%N :: rest) = mkTok TKey [35%N] :: tokenize E rest.
-  Proof. leaf HE [35%N]. Qed.
-  Lemma tok_ctx rest : tokenize E (95%N :: rest) = mkTok TFilterCtx [95%N] :: tokenize E rest.
-  Proof. leaf HE [95%N]. Qed.
-  Lemma tok_keys rest : tokenize E (126%N :: rest) = mkTok TKeys [126%N] :: tokenize E rest.
-  Proof. leaf HE [126%N]. Qed.
   Lemma tok_ddot rest : tokenize E (46%N :: 46%N :: rest) = mkTok TDDot [46; 46]%N :: tokenize E rest.
   Proof. leaf HE [46; 46]%N. Qed.
-  Lemma tok_union rest :
-    tokenize E (124%N :: 32%N :: rest) = mkTok TUnion [124%N] :: tokenize E (32%N :: rest).
-  Proof. leaf HE [124%N]. Qed.
-  Lemma tok_intersect rest :
-    tokenize E (38%N :: 32%N :: rest) = mkTok TIntersect [38%N] :: tokenize E (32%N :: rest).
-  Proof. leaf HE [38%N]. Qed.
+  Lemma tok_ident k t rest :
+    In (k, t) (env_base E) -> nonsign_head rest ->
+    tokenize E (t ++ rest) = mkTok k t :: tokenize E rest.
+  Proof.
+    intros Hin Hr. apply (tok_pre E t [_] rest).
+    - destruct (tokens_ok_base E HE) as [Hsp _]. apply spelling_nonempty. apply (Hsp k t Hin).
+    - apply step_ident; assumption.
+  Qed.
 End Leaves.
 
 From JP Require Import Serialize TokPrint.
 
 Section Leaves2.
   Variable E : env.
-  Hypothesis HE : default_tokens E.
+  Hypothesis HE : tokens_ok E = true.
 
   (* skipping one space *)
   Lemma nonspace_not_blank c :
@@ -954,7 +1244,7 @@ Section Leaves2.
     intros Hs Hc.
     change (tokenize E (c :: y)) with ([] ++ tokenize E (c :: y)).
     apply (tok_pre E [32%N] [] (c :: y)); [discriminate|]. cbn [app].
-    rewrite step1_cons. unfold alt_list, alt_env. cbv zeta. rewrite (env_tokens_default _ HE).
+    rewrite step1_cons. unfold alt_list. cbv zeta. rewrite (alt_env_nonsign _ HE) by reflexivity.
     rewrite (alt_slice_none _ (match_slice_space c y Hs Hc)).
     rewrite (alt_skip_space c y Hs).
     lazy. reflexivity.
@@ -968,7 +1258,7 @@ Section Leaves2.
     assert (Hne : alt_simple (33%N :: c :: y) TNe [33; 61]%N = None).
     { unfold alt_simple, match_lit. cbn [starts_with]. change (N.eqb 33 33) with true.
       replace (N.eqb 61 c) with false by (symmetry; apply N.eqb_neq; congruence). reflexivity. }
-    rewrite step1_cons. unfold alt_list, alt_env. cbv zeta. rewrite (env_tokens_default _ HE).
+    rewrite step1_cons. unfold alt_list. cbv zeta. rewrite (alt_env_nonsign _ HE) by reflexivity.
     rewrite Hne. lazy. reflexivity.
   Qed.
 
